@@ -43,6 +43,31 @@ CHECKS = {
    text="Encode->decode->re-encode for all witness versions 0..16 x program lengths 0..42 x 6 patterns x bc/tb (both cases), all 256 Base58 version bytes x 6 hashes; valid-checksum structurally invalid segwit strings (versions 0..31 x both checksum variants x every data length x fills x hrps); from 17 valid addresses and 6 WIFs ALL single substitutions over 100 byte values, insertions, deletions, case flips, whole-case changes, transpositions, every checksum-byte value; all double substitutions inside the Bech32 charset on 3 (thorough 12) addresses and all triples on the short address; all strings of length <=4 (thorough <=6) over a 12-character alphabet. Verdict, decoded script and re-encoded string must equal the reference.",
    note="trusted: refaddr (validated against all BIP173/BIP350/Base58/addr/WIF vectors on disk at start). NewAddrFromString has no network parameter: a string is valid iff valid for main, test or Litecoin Base58 versions. Not judged (counted): other Base58 version bytes, WIF keys outside [1,n-1], P2PK scripts, encoder preconditions",
    design="3/C15"),
+ "C01": dict(dir="c01", level="exploration", engine="seqx-shape",
+   technique="bounded-exhaustive differential enumeration of script programs / inputs / flag sets on script.VerifyTxScript against an independent second interpreter (refscript over refhash, refsig)",
+   text="Every member of the families is evaluated by the implementation and by the reference; verdicts must agree; a panic escaping or a run > 60 s is a violation. (a) ALL programs of <= 2 (thorough <= 3, and <= 4 over 21 tokens) tokens over a 77-token alphabet (pushes incl. non-minimal and truncated forms, every opcode class, symbolic signatures and keys) in 5 contexts (bare, P2SH, P2WSH, P2SH-P2WSH, tapscript) with small initial stacks and 2-3 flag sets; (b) all 256 opcodes x 3 sigversions x executed/unexecuted x depth 0-4; (c) CHECKMULTISIG m-of-n 0..20(+21) with bad-signature positions, dummy, NULLFAIL; (d) CLTV/CSV operand and tx boundary values; (e) limits 999/1000/1001, 200/201/202, 520/521, 10000/10001; (f) witness versions 0-16 x program lengths 2-40, wrapped/bare, P2WPKH item counts, scriptSig malleation; (g) taproot control sizes, leaf versions, parity, Merkle order, annex, OP_SUCCESS x256, key-path signature sizes and all 256 hash types, sigop budget; (h) a 21-set flag lattice over the repo's vector corpus; plus DER/pubkey encodings and FindAndDelete families. Small-scope claim, not a proof over all scripts.",
+   note="trusted: refscript (agrees with all 1204 rows of script_tests.json incl. Core's error names, 120 tx_valid and 92 tx_invalid rows), refhash (500/500 sighash.json rows), refsig; taproot follows the BIP text (no vector file on disk); flag sets restricted to consistent ones (VerifyTxScript panics by design on CLEANSTACK/WITNESS without P2SH)",
+   design="3/C01"),
+ "C02": dict(dir="c02", level="exploration", engine="seqx-shape",
+   technique="bounded-exhaustive digest comparison with an independent implementation of the three signature-hash algorithms (refhash), explicit enumeration of all request orders on one Tx object, and verdicts on reference-made signatures through VerifyTxScript",
+   text="(i) Tx.SignatureHash / WitnessSigHash / TaprootSigHash against refhash over 84 tx shapes x all inputs x 288 hash types (all 256 bytes + 4-byte types) x 71 script codes (code separators at every position, embedded signatures in each push form, unparsable tails), annex present/absent, key/script path, 4 codeseparator positions; (ii) VerifyTxScript on signatures made by the reference signer over the reference digest, over wrong digests, and over the all-zero / legacy-1 constants where the specification defines no digest (must fail); (iii) all request sequences of length <= 3 (thorough 4) over 16 request kinds on ONE Tx object, each answer compared with a fresh object and with refhash (cache independence).",
+   note="trusted: refhash (reproduces all 500 sighash.json rows), refsig; the concurrent part of the statement (digest requests from several goroutines) is not explored by this check",
+   design="3/C02"),
+ "C03": dict(dir="c03", level="exploration", engine="seqx-shape",
+   technique="bounded-exhaustive input families executed on btc.EcdsaVerify / SchnorrVerify / CheckPayToContract / NewPublicKey / the signers and judged by an independent math/big reference (refsig over refsecp)",
+   text="Every member of constructed finite families is executed: valid triples (6 keys x 7 messages x 3 encodings x low/high S), every single-bit flip of key/signature/message, boundary scalars for r and s (0,1,n-1,n,n+1,+n,+2n,p,2^256-1,33-byte), DER forms/truncations, every key prefix byte and length 0-66, algebraic constructions for x>=p, y>=p, unliftable x and off-curve points that unchecked arithmetic would accept; same for BIP340 (odd-Y R, lengths) and the BIP341 tweak check (tweak 0/n-1/>=n/sum infinity, unliftable and >=p internal keys); signers: 12 secrets x 8 messages x (16 random-nonce repetitions, RFC6979, explicit nonce, 3 aux BIP340): verify under the reference, low S, canonical DER, equality with the RFC6979/BIP340 reference output, recovery for all 4 recids. Not a proof over all byte strings.",
+   note="trusted: refsecp/refsig (validated each run against the BIP340 CSV and literal vectors of gocoin's test sources: 57 vectors + 153 group assertions), crypto/sha256, crypto/hmac; lax-DER-only forms refused by gocoin are C01's finding and not judged here",
+   design="3/C03"),
+ "C08": dict(dir="c08", level="model_checking", engine="seqx-state",
+   technique="explicit-state BFS over the real secp256k1.Field (3 registers) and XYZ (2 registers) value types, states deduplicated by raw limbs, every contract-enabled operation compared with a math/big model after each step; exhaustive comparison of all 9217 precomputed table entries; both field back ends (10x26 via a GOARCH=386 build of the same program)",
+   text="Field machine: SetB32 of 15 boundary constants, 13 raw limb patterns up to magnitude 32, Normalize, Negate, MulInt{2,3,7,8}, SetAdd, Mul (all aliasings), Sqr, Inv, InvVar, Sqrt; all sequences to depth 4 (quick) / 5 (thorough) that respect the magnitude contract; after each step value mod p, Normalize output, IsZero/IsOdd/Equals and operand preservation are checked. Group machine: 9 start points (inf, G, 2G, -G, 3G, P, -P, lambda*P, raw SetXYZ output), Double, Add, AddXY, Neg, SetXYZ, mul_lambda to depth 4/5. Families: ECmult over a boundary-scalar set squared x operand points, ECmultGen, BaseMultiply(Add), Multiply, DecompressPoint/SetXO on 64 x values, split_exp/split/wNAF, curve constants; tables pre_g, pre_g_128, prec (prec[j][i] = (i+1)*16^j*G), fin: every raw entry and every entry through the multiplication that uses it.",
+   note="trusted: refsecp (self-checked each run), math/big; unexported tables reached through a verif-tagged overlay file generated by checks/c08/overlay.sh; if the 386 build is unavailable the run says so in assumptions",
+   design="3/C08"),
+ "C10": dict(dir="c10", level="exploration", engine="seqx-shape",
+   technique="bounded-exhaustive enumeration of UTXO record families through SerializeU/C -> NewUtxoRecOwnU/C and OneUtxoRecU/C for every vout, exhaustive CompressAmount/DecompressAmount sweep, and small databases through the real UnspentDB commit -> Close -> NewUnspentDb in plain, option-compressed and tool-compressed modes (each open in its own child process); oracle = identity / projection",
+   text="Out counts {1,2,3,252,253,254,30000,30001,30002} x survivor sets x heights at CompactSize boundaries x coinbase flag; 536 script shapes (P2PKH, P2SH, P2PK compressed/uncompressed/hybrid/off-curve/x>=p/y>=p/unliftable, every one-byte near-miss of each template, lengths 0..65536 x first byte 0..6) x 16 amounts x coinbase x 3 layouts; 146k amounts (d*10^e) x 2 scripts; all mantissas <= 10^6 (thorough 2*10^7) x exponents through the amount compressor; snapshot pools of 0,1,2,257 records, 3 generations incl. spends, in 3 modes.",
+   note="trusted: math/big curve arithmetic for constructing non-canonical keys; identity is the oracle",
+   design="3/C10"),
 }
 
 ALL = ["C%02d" % i for i in range(1, 21)]
